@@ -264,6 +264,34 @@ func (k *c15K) cond(env *c15kEnv, e ast.Expr) c15kCond {
 	return c15kCond{}
 }
 
+// define handles `x := <pure expression>` by substituting x with the expression.
+func (k *c15K) define(env *c15kEnv, as *ast.AssignStmt) bool {
+	if as.Tok != token.DEFINE || len(as.Lhs) != 1 || len(as.Rhs) != 1 {
+		return false
+	}
+	id, ok := as.Lhs[0].(*ast.Ident)
+	if !ok || id.Name == "_" {
+		return false
+	}
+	pure := true
+	ast.Inspect(as.Rhs[0], func(n ast.Node) bool {
+		if c, ok := n.(*ast.CallExpr); ok {
+			if tv, ok := env.info.Types[c.Fun]; ok && tv.IsType() {
+				return true
+			}
+			if b, ok := calleeObj(env.info, c).(*types.Builtin); !ok || b.Name() != "len" {
+				pure = false
+			}
+		}
+		return true
+	})
+	if !pure {
+		return false
+	}
+	env.subst[env.info.Defs[id]] = k.norm(env, as.Rhs[0])
+	return true
+}
+
 // exec runs statements from state cur; finished cases are appended to out.
 func (k *c15K) exec(env *c15kEnv, list []ast.Stmt, cur c15kCase, out *[]c15kCase) {
 	if len(list) == 0 {
@@ -281,6 +309,10 @@ func (k *c15K) exec(env *c15kEnv, list []ast.Stmt, cur c15kCase, out *[]c15kCase
 		}
 		*out = append(*out, k.call(env, s.Results[0], cur)...)
 	case *ast.AssignStmt:
+		if k.define(env, s) {
+			k.exec(env, rest, cur, out)
+			return
+		}
 		if s.Tok != token.ASSIGN || len(s.Lhs) != 1 || !k.isDst(env, s.Lhs[0]) {
 			k.fail(s, "statement %s is not dst = ...", nodeStr(s))
 		}
@@ -289,7 +321,11 @@ func (k *c15K) exec(env *c15kEnv, list []ast.Stmt, cur c15kCase, out *[]c15kCase
 		}
 	case *ast.IfStmt:
 		if s.Init != nil {
-			k.fail(s, "if with init")
+			// if x := expr; cond { ... }: x is a pure abbreviation
+			ia, ok := s.Init.(*ast.AssignStmt)
+			if !ok || !k.define(env, ia) {
+				k.fail(s, "if with an init statement that is not `x := <pure expression>`")
+			}
 		}
 		cd := k.cond(env, s.Cond)
 		neg := cd
@@ -444,6 +480,9 @@ func c15kConstPart(e string) int64 {
 
 // c15kMax bounds K+subj or subj given exclusive upper bounds of subjects.
 func c15kMax(e string, bound map[string]int64) (int64, bool) {
+	if b, ok := bound[e]; ok {
+		return b - 1, true // the whole expression is bounded by the path condition
+	}
 	k, rest := int64(0), e
 	if i := strings.Index(e, "+"); i > 0 {
 		if _, err := fmt.Sscan(e[:i], &k); err == nil {
